@@ -156,7 +156,7 @@ fn set_code(slots: &[(&'static str, SlotTy)]) -> String {
     }
     code
 }
-fn param_suffix(n: usize) -> &'static str { match n { 0 => "", 1 => "/:a", _ => "/:a/:b" } }
+fn param_suffix(n: usize) -> &'static str { match n { 0 => "", 1 => "/:a", 2 => "/:a/:b", _ => "/:a/:b/:c" } }
 #[inline(never)]
 fn set_pattern(dir: &str, k: usize, slots: &[(&'static str, SlotTy)], n_params: usize) -> &'static str {
     leak(format!("/s/{dir}{k}/{}{}", set_code(slots), param_suffix(n_params)))
@@ -187,6 +187,22 @@ where A: FromParam<'static> + Slot + Send + Sync + 'static, B: FromParam<'static
     let pattern = param_pattern("p2", &slots, 2);
     let hs = pattern.GET(|(a, b): (A, B)| async move { echo(&[("a", &a as &dyn ShowDyn), ("b", &b as &dyn ShowDyn)]) });
     cat.add(hs, pattern, "GET", "T2", 0, slots);
+}
+
+/// a two-param handler on a route with three param segments: it must get the first two (the framework accepts a handler
+/// that takes fewer params than its route has)
+fn reg_t2of3<A, B>(cat: &mut Catalogue)
+where A: FromParam<'static> + Slot + Send + Sync + 'static, B: FromParam<'static> + Slot + Send + Sync + 'static {
+    let slots = vec![("a", A::ty()), ("b", B::ty())];
+    let pattern = param_pattern("t2of3", &slots, 3);
+    let hs = pattern.GET(|(a, b): (A, B)| async move { echo(&[("a", &a as &dyn ShowDyn), ("b", &b as &dyn ShowDyn)]) });
+    cat.add(hs, pattern, "GET", "T2of3", 0, slots);
+}
+fn reg_p1of3<A>(cat: &mut Catalogue) where A: FromParam<'static> + Slot + Send + Sync + 'static {
+    let slots = vec![("a", A::ty())];
+    let pattern = param_pattern("p1of3", &slots, 3);
+    let hs = pattern.GET(|a: A| async move { echo(&[("a", &a as &dyn ShowDyn)]) });
+    cat.add(hs, pattern, "GET", "P1of3", 0, slots);
 }
 
 /* ---- handlers with FromRequest items (POST); one generic function per framework impl ---- */
@@ -299,6 +315,8 @@ pub fn catalogue() -> Catalogue {
     let mut cat = Catalogue { items: Vec::new(), routes: Vec::new() };
     with_ptypes!(reg_singles cat);
     with_ptypes!(reg_pairs cat);
+    reg_t2of3::<String, String>(&mut cat); reg_t2of3::<u8, String>(&mut cat); reg_t2of3::<String, i32>(&mut cat); reg_t2of3::<u16, i64>(&mut cat);
+    reg_p1of3::<String>(&mut cat); reg_p1of3::<u8>(&mut cat);
     reg_sets!(cat);
     cat
 }
@@ -926,6 +944,15 @@ pub fn run_engine(ctx: &mut Ctx) {
                 check_case(ctx, &sub, r, &req);
             } }
         }
+    }
+    /* (2b) handlers taking fewer params than the route has three of: the third segment must not reach any slot */
+    for r in sub.routes.iter().filter(|r| matches!(r.imp.as_str(), "T2of3" | "P1of3")) {
+        if !ctx.mine() { continue }
+        for a in segs2.iter() { for b in segs2.iter() { for c in [&b"zz"[..], &b"9"[..], &b"%33"[..]] {
+            let mut req = no_items.clone();
+            req.params = vec![a.clone(), b.clone(), c.to_vec()];
+            check_case(ctx, &sub, r, &req);
+        } } }
     }
 
     /* (3) extractor sets: Content-Type × body × query (× a few param segments where the signature has params) */
